@@ -1,3 +1,238 @@
 // Kani harnesses mounted into crates/ripd/src/local_authority.rs (cfg(kani) only).
 #![allow(unused_imports, dead_code)]
 use super::*;
+include!("/verif/harness/common.rs");
+
+// ---------------------------------------------------------------------------------------------------------
+// C18: stale / corrupt lock cleanup over a MODEL of the authority directory.
+// Slots: lock.json in {absent, record(pid), corrupt}, meta.json in {absent, present(pid)}. The file-system calls and the
+// two record readers are stubs over that model. The caller's contract is part of the model: the pid passed to the stale
+// cleanup is DEAD (callers verify it), every other pid that appears is ALIVE.
+// Schedules: Kani is sequential, so a second contender B is run INSIDE the rename stub: just before A's rename of the
+// lock takes effect, B may (symbolic choice, shape-enabled) perform its own complete recovery -- remove the dead
+// authority's files and acquire the lock with its own live pid. This is the one interleaving point between A's re-read
+// of the record and A's rename.
+// The model state lives in a static (the fs stubs only receive paths); a canary assertion guards against the
+// static-mut mis-modelling observed with other ripd harnesses.
+// ---------------------------------------------------------------------------------------------------------
+#[derive(Clone, Copy, PartialEq, Eq)]
+enum LockSlot {
+    Absent,
+    Record(u32),
+    Corrupt,
+}
+struct AuthModel {
+    lock: LockSlot,
+    meta_pid: Option<u32>,
+    dead_pid: u32,
+    allow_preemption: bool,
+    preempted: bool,
+    lock_renames: u32,
+    renamed_live_lock: bool,
+    renamed_lock_pid: Option<u32>,
+    meta_renames: u32,
+}
+static mut AM: AuthModel = AuthModel {
+    lock: LockSlot::Absent, meta_pid: None, dead_pid: 0, allow_preemption: false, preempted: false,
+    lock_renames: 0, renamed_live_lock: false, renamed_lock_pid: None, meta_renames: 0,
+};
+fn am() -> &'static mut AuthModel {
+    unsafe { &mut *core::ptr::addr_of_mut!(AM) }
+}
+const B_PID: u32 = 77; // contender B, alive
+
+fn path_is(p: &Path, name: &[u8]) -> bool {
+    let b = p.as_os_str().as_encoded_bytes();
+    if b.len() < name.len() {
+        return false;
+    }
+    let off = b.len() - name.len();
+    let mut i = 0;
+    while i < name.len() {
+        if b[off + i] != name[i] {
+            return false;
+        }
+        i += 1;
+    }
+    true
+}
+fn a_exists(this: &Path) -> bool {
+    if path_is(this, b"lock.json") {
+        am().lock != LockSlot::Absent
+    } else if path_is(this, b"meta.json") {
+        am().meta_pid.is_some()
+    } else {
+        false
+    }
+}
+fn a_read_lock<P: AsRef<Path>>(_data_dir: P) -> Result<Option<AuthorityLockRecord>, String> {
+    match am().lock {
+        LockSlot::Absent => Ok(None),
+        LockSlot::Corrupt => Err(String::new()),
+        LockSlot::Record(pid) => Ok(Some(AuthorityLockRecord { pid, started_at_ms: 0, workspace_root: String::new() })),
+    }
+}
+fn a_read_meta<P: AsRef<Path>>(_data_dir: P) -> Result<Option<AuthorityMeta>, String> {
+    match am().meta_pid {
+        None => Ok(None),
+        Some(pid) => Ok(Some(AuthorityMeta { endpoint: String::new(), pid, started_at_ms: 0, workspace_root: String::new() })),
+    }
+}
+fn a_rename<P: AsRef<Path>, Q: AsRef<Path>>(from: P, _to: Q) -> std::io::Result<()> {
+    let m = am();
+    if path_is(from.as_ref(), b"lock.json") {
+        // interleaving point: contender B recovers the dead authority's files and acquires
+        if m.allow_preemption && !m.preempted && kani::any() {
+            m.preempted = true;
+            if let LockSlot::Record(pid) = m.lock {
+                if pid == m.dead_pid {
+                    m.lock = LockSlot::Record(B_PID);
+                    if m.meta_pid == Some(m.dead_pid) {
+                        m.meta_pid = Some(B_PID);
+                    }
+                }
+            }
+        }
+        m.lock_renames += 1;
+        match m.lock {
+            LockSlot::Absent => return Err(std::io::Error::from(std::io::ErrorKind::NotFound)),
+            LockSlot::Record(pid) => {
+                m.renamed_lock_pid = Some(pid);
+                if pid != m.dead_pid {
+                    m.renamed_live_lock = true;
+                }
+            }
+            LockSlot::Corrupt => {
+                m.renamed_lock_pid = None;
+            }
+        }
+        m.lock = LockSlot::Absent;
+        Ok(())
+    } else if path_is(from.as_ref(), b"meta.json") {
+        m.meta_renames += 1;
+        m.meta_pid = None;
+        Ok(())
+    } else {
+        Ok(())
+    }
+}
+fn a_remove_file<P: AsRef<Path>>(_p: P) -> std::io::Result<()> {
+    Ok(()) // only tombstones are removed by the functions under test
+}
+fn a_now_ms() -> u64 {
+    kani::any()
+}
+fn a_process_id() -> u32 {
+    5
+}
+fn stub_to_string_e<T: core::fmt::Display + ?Sized>(_t: &T) -> String {
+    String::new()
+}
+
+macro_rules! c18_stale_cleanup {
+    ($name:ident, $preempt:expr) => {
+        #[kani::proof]
+        #[kani::unwind(12)]
+        #[kani::stub(std::fmt::format, stub_fmt_format)]
+        #[kani::stub(alloc::string::ToString::to_string, stub_to_string_e)]
+        #[kani::stub(now_ms, a_now_ms)]
+        #[kani::stub(std::path::Path::exists, a_exists)]
+        #[kani::stub(read_authority_lock_record, a_read_lock)]
+        #[kani::stub(read_authority_meta, a_read_meta)]
+        #[kani::stub(std::fs::rename, a_rename)]
+        #[kani::stub(std::fs::remove_file, a_remove_file)]
+        fn $name() {
+            let canary: Vec<u8> = Vec::new();
+            assert!(canary.capacity() == 0, "kani-model-canary: constant mis-modelled");
+            let dead: u32 = kani::any();
+            let other: u32 = kani::any();
+            kani::assume(dead != other && dead != B_PID && other != B_PID);
+            let lock_kind: u8 = kani::any();
+            kani::assume(lock_kind < 4);
+            {
+                let m = am();
+                m.dead_pid = dead;
+                m.allow_preemption = $preempt;
+                m.lock = match lock_kind {
+                    0 => LockSlot::Absent,
+                    1 => LockSlot::Record(dead),
+                    2 => LockSlot::Record(other), // a LIVE authority's lock
+                    _ => LockSlot::Corrupt,
+                };
+                let meta_kind: u8 = kani::any();
+                kani::assume(meta_kind < 3);
+                m.meta_pid = match meta_kind {
+                    0 => None,
+                    1 => Some(dead),
+                    _ => Some(other),
+                };
+            }
+            let pre_lock = am().lock;
+            let pre_meta = am().meta_pid;
+            let r = try_cleanup_stale_authority_files(Path::new("/d"), dead, kani::any());
+            let cleaned = match &r {
+                Ok(b) => *b,
+                Err(_) => false,
+            };
+            assert!(!am().renamed_live_lock, "stale cleanup removed the lock of a LIVE authority");
+            if !am().preempted {
+                if cleaned {
+                    assert!(pre_lock == LockSlot::Record(dead) && am().lock == LockSlot::Absent, "cleanup reported success without removing the dead authority's lock");
+                    assert!(am().meta_pid != Some(dead), "dead authority's endpoint file left behind");
+                    assert!(pre_meta != Some(other) || am().meta_pid == Some(other), "cleanup removed the endpoint file of another (live) authority");
+                } else {
+                    assert!(am().lock == pre_lock && am().meta_pid == pre_meta, "cleanup changed files although it reported nothing to clean");
+                    assert!(pre_lock != LockSlot::Record(dead), "a dead authority's lock was not cleaned up (store stays wedged)");
+                }
+            }
+            kani::cover!(cleaned, "dead authority's files cleaned");
+            kani::cover!(!cleaned && pre_lock == LockSlot::Record(other), "live authority left alone");
+            core::mem::forget(r);
+        }
+    };
+}
+c18_stale_cleanup!(c18_stale_cleanup_sequential, false);
+// One preemption of A by a recovering contender B between A's re-read of the lock record and A's rename.
+c18_stale_cleanup!(c18_stale_cleanup_one_preemption, true);
+
+// Corrupt-lock cleanup (caller contract: invoked only while the lock record cannot be parsed, after the grace period).
+#[kani::proof]
+#[kani::unwind(12)]
+#[kani::stub(std::fmt::format, stub_fmt_format)]
+#[kani::stub(alloc::string::ToString::to_string, stub_to_string_e)]
+#[kani::stub(now_ms, a_now_ms)]
+#[kani::stub(std::process::id, a_process_id)]
+#[kani::stub(std::path::Path::exists, a_exists)]
+#[kani::stub(std::fs::rename, a_rename)]
+#[kani::stub(std::fs::remove_file, a_remove_file)]
+fn c18_corrupt_cleanup_sequential() {
+    let canary: Vec<u8> = Vec::new();
+    assert!(canary.capacity() == 0, "kani-model-canary: constant mis-modelled");
+    let live: u32 = kani::any();
+    kani::assume(live != B_PID);
+    {
+        let m = am();
+        m.dead_pid = 0;
+        m.allow_preemption = false;
+        m.lock = if kani::any() { LockSlot::Corrupt } else { LockSlot::Absent };
+        m.meta_pid = if kani::any() { Some(live) } else { None };
+    }
+    let pre_lock = am().lock;
+    let pre_meta = am().meta_pid;
+    let r = try_cleanup_corrupt_lock_file(Path::new("/d"));
+    let cleaned = match &r {
+        Ok(b) => *b,
+        Err(_) => false,
+    };
+    if cleaned {
+        assert!(pre_lock == LockSlot::Corrupt && pre_meta.is_none(), "corrupt-lock cleanup acted although an endpoint file exists (an authority is advertising itself)");
+        assert!(am().lock == LockSlot::Absent, "cleanup reported success without removing the corrupt lock");
+    } else {
+        assert!(am().lock == pre_lock, "cleanup changed the lock although it reported nothing to clean");
+        assert!(!(pre_lock == LockSlot::Corrupt && pre_meta.is_none()), "a corrupt lock without endpoint file was not cleaned up (store stays wedged)");
+    }
+    assert!(am().meta_pid == pre_meta, "corrupt-lock cleanup touched the endpoint file");
+    kani::cover!(cleaned, "corrupt lock removed");
+    kani::cover!(!cleaned && pre_meta.is_some(), "left alone because an endpoint file exists");
+    core::mem::forget(r);
+}
